@@ -211,10 +211,7 @@ pub fn run(tier: Tier) -> RunOutcome {
     // calibration: how many clock reads does an uninterrupted history take
     let nsolves = 1 + choose("nsolves", 3) as usize;
     let mut ops: Vec<SolveOp> = (0..nsolves)
-        .map(|_| SolveOp {
-            time_limit: f64::INFINITY,
-            max_iter: 60,
-        })
+        .map(|_| SolveOp::default())
         .collect();
     with_sim(|s| s.clocks[0] = Clock::new(ClockProfile::frozen()));
     api(format!("problem {}", prob.describe()));
